@@ -69,10 +69,20 @@ def tlc_eval_robust(chk: Check, insts, name):
         return r1, s1 + s2
 
 
+_N_EVAL = 0
+
+
 def lib_eval(I, what, n_batch=1, eps=None):
     """call the library on instance I.  what in {"ov","e","fb"}.  returns dict container -> array(nw[,nchol])
     or {"raises": repr}"""
+    import jax
     import jax.numpy as jnp
+    # every instance is a new trial object, hence new XLA executables: thousands of them exhaust the process's memory
+    # maps ("LLVM compilation error: Cannot allocate memory", then a crash) in the thorough tier
+    global _N_EVAL
+    _N_EVAL += 1
+    if _N_EVAL % 150 == 0:
+        jax.clear_caches()
     trial, wd, hd, ham = wf.build_lib(I, n_batch=n_batch, eps=eps)
     ups = jnp.array(np.array([w[0] for w in I["walkers"]]))
     dns = jnp.array(np.array([w[1] for w in I["walkers"]]))
